@@ -14,7 +14,7 @@ def run_all(pids=None):
     pids = pids or ["C%02d" % i for i in range(1, 21)]
     fd = facts.extract()
     prog = mir.Program(fd)
-    failing, aborted, n = [], [], 0
+    failing, aborted, n, undecided = [], [], 0, []
     for pid in pids:
         mod = importlib.import_module("rules.props.%s" % pid.lower())
         ctx = core.Ctx.__new__(core.Ctx)
@@ -39,7 +39,9 @@ def run_all(pids=None):
         for r in ctx.records:
             if r["verdict"] == "violation":
                 failing.append({"pid": pid, "key": r["key"], "sig_changed": bool(r.get("sig_changed")), "where": r.get("where", "")})
-    return {"failing": failing, "aborted": aborted, "n_records": n}
+            elif r["verdict"] == "undecided":
+                undecided.append(r["key"])
+    return {"failing": failing, "aborted": aborted, "n_records": n, "undecided": sorted(set(undecided))}
 
 
 if __name__ == "__main__":
